@@ -185,14 +185,15 @@ def opNames (b : Buf) (ns : List (Nat × List Nat)) : Option (Buf × DirEnt) :=
   | .ok (b', ty, loc) => some (b', ⟨ty, loc.size, loc.rva⟩)
   | _ => none
 
-/-- `generate_dump` as builder operations -/
-def opDump (d : DumpIn) : Option Bytes :=
+/-- `generate_dump` as builder operations, started with the per-request state `w0` of the writer (`memory_blocks`,
+    `crashing_thread_context`) -/
+def opDumpFrom (w0 : WSt) (d : DumpIn) : Option Bytes :=
   let (b1, hslot) := Slot.alloc Buf.empty 32
   let (b2, darr) := Arr.allocArray b1 d.numWriters 12
   match hslot.setValue b2 (serHeader d.numWriters darr.position d.timestamp) with
   | none => none
   | some b3 =>
-  match opThreadList d.blamed d.crash.isSome b3 d.threads ⟨[], CTC.none⟩ with
+  match opThreadList d.blamed d.crash.isSome b3 d.threads w0 with
   | none => none
   | some (b4, e, w) =>
   match publishEnt ⟨darr, 0⟩ b4 e with
@@ -220,6 +221,12 @@ def opDump (d : DumpIn) : Option Bytes :=
   (softStage d.handles opHandles st17).bind fun st18 =>
   (rawStage ST_MOZ_SOFT_ERRORS d.soft st18).bind fun st19 =>
   some st19.1.inner
+
+/-- `MinidumpWriter::dump`: the per-request state is reset on entry (after the repair), then `generate_dump` -/
+def opDump (d : DumpIn) : Option Bytes := opDumpFrom ⟨[], CTC.none⟩ d
+
+/-- the writer as it was: whatever an earlier request left behind is still there -/
+def opDumpLegacy (left : WSt) (d : DumpIn) : Option Bytes := opDumpFrom left d
 
 -- stage lemmas ----------------------------------------------------------------------------------------------------------
 
@@ -552,7 +559,7 @@ theorem Compose_dump (d : DumpIn) (hN : 18 ≤ d.numWriters) (hsz : (dumpBytes d
   have hst2 : (stOf d arr (acc2 d)).1 = ⟨imgOf d (acc2 d)⟩ := rfl
   have hst3 : ((⟨imgOf d (acc3 d)⟩ : Buf), (stOf d arr (acc2 d)).2) = stOf d arr (acc3 d) := by
     simp [stOf, dl2, dl3]
-  unfold opDump
+  unfold opDump opDumpFrom
   simp only [hinit1, hinit2, hinit3, h1, hpub1, hs2, hst2, happ, himg3, hw_blocks, hw_ctc, hblocks3, hst3,
     hs4, hs5, hs6, hs7, hs8, hs9, hs10, hs11, hs12, hs13, hs14, hs15, hs16, hs17, hs18, hs19, Option.bind_some]
   rw [dumpBytes_eq_imgOf, dumpAcc_eq]
